@@ -241,8 +241,9 @@ theorem uid_purge {s : State} (h : UID s) : UID s.purge := by
   repeat' split
   all_goals exact ⟨h.nodup, h.below⟩
 
-theorem uid_push {s : State} (sub : Sub) (cnt : Nat) (hid : sub.id = s.nextSubId) (h : UID s) :
-    UID { s with count := cnt, nextSubId := s.nextSubId + 1, subs := s.subs ++ [sub] } := by
+theorem uid_push {s : State} (sub : Sub) (cnt next : Nat) (hfresh : ∀ x ∈ s.live, x.id ≠ sub.id)
+    (hlt : sub.id < next) (hge : s.nextSubId ≤ next) (h : UID s) :
+    UID { s with count := cnt, nextSubId := next, subs := s.subs ++ [sub] } := by
   have hp : ((s.subs ++ [sub]) ++ s.ctxs.map (·.sub)).Perm (sub :: s.live) := by
     simp only [State.live]
     have : s.subs ++ [sub] ++ s.ctxs.map (·.sub) = s.subs ++ sub :: s.ctxs.map (·.sub) := by simp
@@ -254,31 +255,65 @@ theorem uid_push {s : State} (sub : Sub) (cnt : Nat) (hid : sub.id = s.nextSubId
     refine List.nodup_cons.mpr ⟨?_, h.nodup⟩
     intro hm
     obtain ⟨x, hx, hxe⟩ := List.mem_map.mp hm
-    have := h.below x hx
-    omega
+    exact hfresh x hx hxe
   · intro x hx
     have hx' : x ∈ sub :: s.live := hp.mem_iff.mp (by simpa [State.live] using hx)
     simp only
     rcases List.mem_cons.mp hx' with rfl | hx'
-    · omega
+    · exact hlt
     · have := h.below x hx'; omega
 
-theorem uid_resumeOne {s : State} (r : Rec) (now ev : Nat) (h : UID s) : UID (s.resumeOne r now ev) := by
+/-- the id a resumed subscription gets is not held by a subscription of the table and lies below the
+next id to assign -/
+theorem resumeId_spec (s : State) (r : Rec) (hb : ∀ x ∈ s.subs, x.id < s.nextSubId) :
+    (∀ x ∈ s.subs, x.id ≠ (s.resumeId r).1) ∧ (s.resumeId r).1 < (s.resumeId r).2 ∧
+    s.nextSubId < (s.resumeId r).2 := by
+  unfold State.resumeId
+  cases hr : r.id with
+  | none =>
+    simp only
+    exact ⟨fun x hx => Nat.ne_of_lt (hb x hx), by omega, by omega⟩
+  | some j =>
+    simp only
+    by_cases ht : s.subs.any (fun x => x.id == j) = true
+    · simp only [ht, if_true]
+      exact ⟨fun x hx => Nat.ne_of_lt (hb x hx), by omega, by omega⟩
+    · simp only [ht]
+      refine ⟨?_, by simp only [Bool.false_eq_true, if_false]; omega, by simp only [Bool.false_eq_true, if_false]; omega⟩
+      intro x hx he
+      simp only [Bool.false_eq_true, if_false] at he
+      apply ht
+      rw [List.any_eq_true]
+      exact ⟨x, hx, by simpa using he⟩
+
+theorem uid_resumeOne {s : State} (r : Rec) (now ev : Nat) (hc : s.ctxs = []) (h : UID s) :
+    UID (s.resumeOne r now ev) := by
   unfold State.resumeOne
   split
   · exact h
-  · exact uid_push _ _ rfl h
+  · have hb : ∀ x ∈ s.subs, x.id < s.nextSubId := fun x hx => h.below x (by simp [State.live, hx])
+    obtain ⟨a1, a2, a3⟩ := resumeId_spec s r hb
+    refine uid_push _ _ _ ?_ a2 (by omega) h
+    intro x hx
+    have : x ∈ s.subs := by simpa [State.live, hc] using hx
+    exact a1 x this
 
-theorem uid_resumeAll (now ev : Nat) : ∀ (rs : List Rec) (s : State), UID s →
+theorem resumeOne_ctxs (s : State) (r : Rec) (now ev : Nat) : (s.resumeOne r now ev).ctxs = s.ctxs := by
+  unfold State.resumeOne; split <;> rfl
+
+theorem uid_resumeAll (now ev : Nat) : ∀ (rs : List Rec) (s : State), s.ctxs = [] → UID s →
     UID (rs.foldl (fun st r => st.resumeOne r now ev) s) := by
   intro rs
   induction rs with
-  | nil => intro s h; exact h
-  | cons r rs ih => intro s h; simp only [List.foldl_cons]; exact ih _ (uid_resumeOne r now ev h)
+  | nil => intro s _ h; exact h
+  | cons r rs ih =>
+    intro s hc h
+    simp only [List.foldl_cons]
+    exact ih _ (by rw [resumeOne_ctxs]; exact hc) (uid_resumeOne r now ev hc h)
 
 theorem uid_restart (s : State) (now ev : Nat) : UID (s.restart now ev) := by
   rw [restart_eq]
-  refine uid_resumeAll now ev _ _ ?_
+  refine uid_resumeAll now ev _ _ rfl ?_
   constructor <;> simp [State.fresh, State.new, State.live]
 
 theorem uid_step {s : State} (op : Op) (h : UID s) : UID (s.step op) := by
@@ -843,24 +878,60 @@ theorem resumeAll_subs (now ev : Nat) : ∀ (rs : List Rec) (s : State),
     rw [hc] at this
     exact this
 
-/-- while the table has room, `load_persist` resumes the records in slot order -/
+/-- while the table has room, `load_persist` resumes the records in slot order, each under the id of
+its record — provided the records carry distinct ids that no subscription of the table holds (what
+`persist_all` writes: `persist_recs_distinct`) -/
 theorem resumeAll_map (now ev : Nat) : ∀ (rs : List Rec) (s : State), s.count + rs.length ≤ s.n →
+    (rs.map (·.id)).Nodup → (∀ r ∈ rs, ∃ j, r.id = some j ∧ ∀ x ∈ s.subs, x.id ≠ j) →
     (rs.foldl (fun st r => st.resumeOne r now ev) s).subs.map Sub.toRec = s.subs.map Sub.toRec ++ rs := by
   intro rs
   induction rs with
-  | nil => intro s _; simp
+  | nil => intro s _ _ _; simp
   | cons r rs ih =>
-    intro s h
-    simp only [List.foldl_cons, List.length_cons] at h ⊢
+    intro s h hnd hids
+    simp only [List.foldl_cons, List.length_cons, List.map_cons, List.nodup_cons] at h hnd ⊢
     have hlt : ¬ s.count ≥ s.n := by omega
+    obtain ⟨j, hj, hfree⟩ := hids r (List.mem_cons_self)
+    have hid : (s.resumeId r).1 = j := by
+      unfold State.resumeId
+      rw [hj]
+      simp only
+      have : s.subs.any (fun x => x.id == j) = false := by
+        rw [Bool.eq_false_iff]
+        intro ht
+        rw [List.any_eq_true] at ht
+        obtain ⟨x, hx, he⟩ := ht
+        exact hfree x hx (by simpa using he)
+      simp [this]
     have hs : (s.resumeOne r now ev).subs.map Sub.toRec = s.subs.map Sub.toRec ++ [r] ∧
-        (s.resumeOne r now ev).count = s.count + 1 ∧ (s.resumeOne r now ev).n = s.n := by
+        (s.resumeOne r now ev).count = s.count + 1 ∧ (s.resumeOne r now ev).n = s.n ∧
+        (∀ x ∈ (s.resumeOne r now ev).subs, x ∈ s.subs ∨ x.id = j) := by
       unfold State.resumeOne
       simp only [hlt, if_false]
-      simp [Sub.toRec]
-    rw [ih _ (by rw [hs.2.1, hs.2.2]; omega), hs.1]
-    simp
-
+      refine ⟨?_, trivial, trivial, ?_⟩
+      · simp only [List.map_append, List.map_cons, List.map_nil, Sub.toRec, hid]
+        congr 2
+        cases r
+        simp only at hj
+        simp [hj]
+      · intro x hx
+        simp only [List.mem_append, List.mem_singleton] at hx
+        rcases hx with hx | rfl
+        · left; exact hx
+        · right; exact hid
+    rw [ih _ (by rw [hs.2.1, hs.2.2.1]; omega) hnd.2 ?_, hs.1]
+    · simp
+    · intro r' hr'
+      obtain ⟨j', hj', hfree'⟩ := hids r' (List.mem_cons_of_mem _ hr')
+      refine ⟨j', hj', ?_⟩
+      intro x hx
+      rcases hs.2.2.2 x hx with hx | hx
+      · exact hfree' x hx
+      · rw [hx]
+        intro he
+        apply hnd.1
+        rw [hj, he, ← hj']
+        exact List.mem_map_of_mem hr'
 
 /-! ## The reporter picks an owing subscription up -/
 
